@@ -145,6 +145,8 @@ func c07RestCases() []c07Case {
 	add("body-message-field", "Idem", "/v1/idem/k", "num=4&tags=q", "application/json", []byte(`{"name":"c","nums":[1,2],"child":{"raw":"AP8="}}`))
 	add("body-repeated-scalar", "Nested", "/v1/nested/cn:act", "num=9", "application/json", []byte(`["a","","ü"]`))
 	add("body-scalar", "Scalar", "/v1/scalar/x/leaf", "name=top", "application/json", []byte(`-12`))
+	add("body-map-field", "Labels", "/v1/labels/k", "num=2", "application/json", []byte(`{"a":"b","":"empty key"}`))
+	add("body-repeated-message-field", "Kids", "/v1/kids/k", "", "application/json", []byte(`[{"name":"k1"},{},{"kids":[{"num":1}]}]`))
 	add("body-httpbody", "Blob", "/v1/blob/file%2Ename", "num=1", "image/png", []byte{0x89, 'P', 'N', 'G', 0, 0xff})
 	add("body-httpbody-empty", "Blob", "/v1/blob/f", "", "text/plain; charset=utf-8", nil)
 	// precedence: body, then path variables, then query parameters - a query parameter that
@@ -236,7 +238,7 @@ func init() {
 		c.Attr("kind", strings.SplitN(cs.kind, ":", 2)[0])
 		c.Attr("rule", cs.rule)
 		c.Attr("~request", fmt.Sprintf("%s %s?%s body=%q", rule.http, cs.path, cs.query, cs.body))
-		be := &c07Backend{resp: MkMsg(`{"name":"rn","child":{"name":"rc","num":2},"tags":["r1","r2"],"body":{"contentType":"application/x-thing","data":"AQID"}}`)}
+		be := &c07Backend{resp: MkMsg(`{"name":"rn","child":{"name":"rc","num":2},"tags":["r1","r2"],"body":{"contentType":"application/x-thing","data":"AQID"},"labels":{"l1":"v1","":"e"},"kids":[{"name":"rk"},{}]}`)}
 		tc, err := world.Build(world.Config{Protocols: []vanguard.Protocol{vanguard.ProtocolConnect}, Codecs: []string{"proto"}, MaxMsg: 1 << 20}, be)
 		if err != nil {
 			c.Fail("harness.setup", "%v", err)
@@ -288,11 +290,20 @@ func init() {
 		default:
 			fd := world.MsgDesc().Fields().ByName(protoreflect.Name(rule.respBody))
 			same := false
-			if fd.Message() != nil && !fd.IsList() {
+			if fd.Message() != nil && !fd.IsList() && !fd.IsMap() {
 				m, err := wire.Unmarshal("json", fd.Message(), got)
 				same = err == nil && MsgEqual(normNullValues(m), normNullValues(be.resp.ProtoReflect().Get(fd).Message().Interface()))
 			} else {
 				same = canonJSON(got) == fieldJSON(be.resp, rule.respBody)
+				if !same && fd.Message() != nil {
+					// a list / map of messages: compare as messages (unpopulated fields may be written out)
+					name, _ := json.Marshal(fd.JSONName())
+					if m, err := wire.Unmarshal("json", world.MsgDesc(), []byte(`{`+string(name)+`:`+string(got)+`}`)); err == nil && json.Valid(got) {
+						only := wire.NewMessage(world.MsgDesc())
+						only.ProtoReflect().Set(fd, be.resp.ProtoReflect().Get(fd))
+						same = MsgEqual(normNullValues(m), normNullValues(only))
+					}
+				}
 			}
 			if !same {
 				c.Fail("C07.response-body-differs", "%s\n response body %s, want JSON of field %s = %s", desc, short(string(got)), rule.respBody, fieldJSON(be.resp, rule.respBody))
@@ -324,6 +335,39 @@ func init() {
 			return
 		}
 		c.Outcome("rejected-400")
+	}
+	// ---- the body is ONE JSON value for the field named by `body` - not a fragment that closes
+	// the value and goes on with other fields of the message, nor two values
+	illBodies := [][4]string{
+		{"POST", "/v1/nested/cn:act", "tags", `["t"],"num":9`}, {"PATCH", "/v1/scalar/x/leaf", "num", `7,"name":"injected"`}, {"PUT", "/v1/idem/k", "child", `{"name":"c"},"num":5`},
+		{"PUT", "/v1/labels/k", "labels", `{"a":"b"},"num":5`}, {"PUT", "/v1/kids/k", "kids", `[{"name":"a"}],"num":5`}, {"POST", "/v1/unary", "*", `{"name":"a"}{"num":5}`},
+		{"POST", "/v1/nested/cn:act", "tags", `["t"]["u"]`}, {"PATCH", "/v1/scalar/x/leaf", "num", `7 8`}, {"PUT", "/v1/idem/k", "child", `{"name":"c"}}`}, {"POST", "/v1/nested/cn:act", "tags", `"t"],"tags":["u"`},
+	}
+	illBody := func(c *xplor.Ctx) {
+		q := illBodies[c.Free("body", len(illBodies))]
+		c.Attr("~request", q[0]+" "+q[1]+" body="+q[3])
+		be := &c07Backend{}
+		tc, _ := world.Build(world.Config{Protocols: []vanguard.Protocol{vanguard.ProtocolConnect}, Codecs: []string{[]string{"proto", "json"}[c.Free("target-codec", 2)]}}, be)
+		ex, err := world.Do(tc, c07REST(q[0], q[1], "application/json", []byte(q[3])))
+		if err != nil {
+			c.Skip()
+			return
+		}
+		c.Nontrivial("illbody|" + q[1] + "|" + q[3])
+		if ex.Panic != nil {
+			c.Fail("C07.panic", "%s %s: %s\n%s", q[0], q[1], ex.Panic.Value, stackTop(ex.Panic.Stack))
+			return
+		}
+		pr := wire.ParseClientResponse(wire.REST, ex.Rec.Status, ex.Rec.HeadHeaders(), ex.Rec.BodyBytes.Bytes(), ex.Rec.Trailers)
+		if pr.OK() {
+			got := "-"
+			if be.msg != nil {
+				got = renderMsgs([]proto.Message{be.msg})
+			}
+			c.Fail("C07.malformed-body-accepted", "%s %s with body %s (rule body=%q): the body is not one JSON value for that field, yet the call succeeded (HTTP %d) and the backend received %s", q[0], q[1], q[3], q[2], ex.Rec.Status, got)
+			return
+		}
+		c.Outcome(fmt.Sprintf("body-rejected-%d", ex.Rec.Status))
 	}
 	// ---- RPC -> REST -> RPC through two chained transcoders
 	chainMsgs := map[string][]string{
@@ -456,6 +500,7 @@ func init() {
 		Scenarios: []Scenario{
 			{Name: "rest-to-rpc", Fn: restToRPC, QuickBound: 0, ThoroughBound: 0},
 			{Name: "ill-typed", Fn: illTyped, QuickBound: 0, ThoroughBound: 0},
+			{Name: "ill-formed-bodies", Fn: illBody, QuickBound: 0, ThoroughBound: 0},
 			{Name: "rpc-rest-rpc", Fn: chain, QuickBound: 0, ThoroughBound: 0},
 		},
 		MinOutcomes: 5,
